@@ -71,6 +71,7 @@ GConnected   == Ops.connected_recv_guard
 GErrConnack  == Ops.errconnack_send_guard
 GWrite       == Ops.write_guard
 WLoopClose   == Ops.writeloop_select_close
+WDrain       == Ops.writeloop_drains_on_close      \* the close branch of writeLoop still writes a queued CONNACK / DISCONNECT
 HsTimeout    == Ops.hs_select_timeout
 SetErrWrites == Ops.seterror_write_in_once \/ Ops.seterror_offer_in_once
 SetErrNonBlk == Ops.seterror_offer_in_once \/ "seterror_blocks_in_once" \in Dev        \* as repaired: the DISCONNECT is offered, never waited for
@@ -110,6 +111,11 @@ define {
   Others(c) == {o \in K \ {c} : registered[o]}
   Alive(k) == live[k] # {} \/ willT[k] = "armed"
   NeedsDisc(k) == k \in V5 /\ isConnected[k] /\ SetErrWrites
+  \* writeLoop's drain: for { select { case p := <-out: [write it if CONNACK / DISCONNECT] ; default: return } } --
+  \* everything before the first such packet is received and discarded without blocking
+  OwedIdx(q) == {i \in 1..Len(q) : q[i] \in {"connack", "disconnect"}}
+  Drained(q) == IF OwedIdx(q) = {} THEN <<>>
+                ELSE SubSeq(q, CHOOSE i \in OwedIdx(q) : \A j \in OwedIdx(q) : i <= j, Len(q))
 }
 
 \* client.write: select { case <-client.close: ; case client.out <- p: }
@@ -183,7 +189,7 @@ variable wp = "none";
 w0: await accepted[C(self)] # "no";
     if (accepted[C(self)] = "refused") { goto Done };
 w1: while (TRUE) {
-      either { await WLoopClose /\ closeCh[C(self)]; goto w4 }
+      either { await WLoopClose /\ closeCh[C(self)]; if (WDrain) { goto wd } else { goto w4 } }
       or     { await outq[C(self)] # <<>>; wp := Head(outq[C(self)]); outq[C(self)] := Tail(outq[C(self)]) };
 w2:   \* writePacket: blocks while the peer does not read and the buffers are full; fails once the socket is closed
       either { await srvClosed[C(self)]; goto w4 }
@@ -194,6 +200,22 @@ w2:   \* writePacket: blocks while the peer does not read and the buffers are fu
                if (wp \in {"connack", "ack"} /\ owed[C(self)] > 0) { owed[C(self)] := owed[C(self)] - 1 };
                if (wp = "disconnect") { srvClosed[C(self)] := TRUE; goto w4 } }     \* rwc.Close() after DISCONNECT
     };
+wd: \* case <-client.close: drain client.out without blocking; only a CONNACK / DISCONNECT is still written
+    if (Drained(outq[C(self)]) = <<>>) {
+      outq[C(self)] := <<>>;
+      goto w4
+    } else {
+      wp := Head(Drained(outq[C(self)]));
+      outq[C(self)] := Tail(Drained(outq[C(self)]))
+    };
+wd2: \* writePacket of the drain: the same socket write -- blocks while the peer does not read, fails once the socket is closed
+    either { await srvClosed[C(self)]; goto w4 }
+    or     { await ~srvClosed[C(self)] /\ peerClosed[C(self)];
+             either { goto w4 } or { goto wd } }
+    or     { await ~srvClosed[C(self)] /\ ~peerClosed[C(self)] /\ (peerReading[C(self)] \/ s2c[C(self)] < CapSock);
+             if (~peerReading[C(self)]) { s2c[C(self)] := s2c[C(self)] + 1 };
+             if (wp = "connack" /\ owed[C(self)] > 0) { owed[C(self)] := owed[C(self)] - 1 };
+             goto wd };
 w4: SetErrorPlain(C(self));
     live[C(self)] := live[C(self)] \ {"write"};                \* exit.write ; wg.Done()
     if (CloseOnErr) { srvClosed[C(self)] := TRUE }
@@ -386,6 +408,11 @@ VARIABLES pc, listenerOpen, stopCalled, stopReturned, unloads, onstops, mu,
 Others(c) == {o \in K \ {c} : registered[o]}
 Alive(k) == live[k] # {} \/ willT[k] = "armed"
 NeedsDisc(k) == k \in V5 /\ isConnected[k] /\ SetErrWrites
+
+
+OwedIdx(q) == {i \in 1..Len(q) : q[i] \in {"connack", "disconnect"}}
+Drained(q) == IF OwedIdx(q) = {} THEN <<>>
+              ELSE SubSeq(q, CHOOSE i \in OwedIdx(q) : \A j \in OwedIdx(q) : i <= j, Len(q))
 
 VARIABLES c, rp, wp, hp, hok, old, pk, snap, n
 
@@ -650,7 +677,9 @@ w0(self) == /\ pc[self] = "w0"
 
 w1(self) == /\ pc[self] = "w1"
             /\ \/ /\ WLoopClose /\ closeCh[C(self)]
-                  /\ pc' = [pc EXCEPT ![self] = "w4"]
+                  /\ IF WDrain
+                        THEN /\ pc' = [pc EXCEPT ![self] = "wd"]
+                        ELSE /\ pc' = [pc EXCEPT ![self] = "w4"]
                   /\ UNCHANGED <<outq, wp>>
                \/ /\ outq[C(self)] # <<>>
                   /\ wp' = [wp EXCEPT ![self] = Head(outq[C(self)])]
@@ -699,6 +728,48 @@ w2(self) == /\ pc[self] = "w2"
                             qclosed, plused, plexit, willT, stack, c, rp, wp, 
                             hp, hok, old, pk, snap, n >>
 
+wd(self) == /\ pc[self] = "wd"
+            /\ IF Drained(outq[C(self)]) = <<>>
+                  THEN /\ outq' = [outq EXCEPT ![C(self)] = <<>>]
+                       /\ pc' = [pc EXCEPT ![self] = "w4"]
+                       /\ wp' = wp
+                  ELSE /\ wp' = [wp EXCEPT ![self] = Head(Drained(outq[C(self)]))]
+                       /\ outq' = [outq EXCEPT ![C(self)] = Tail(Drained(outq[C(self)]))]
+                       /\ pc' = [pc EXCEPT ![self] = "wd2"]
+            /\ UNCHANGED << listenerOpen, stopCalled, stopReturned, unloads, 
+                            onstops, mu, sess, accepted, c2s, sent, owed, 
+                            after, peerReading, peerClosed, srvClosed, s2c, 
+                            inq, inClosed, closeCh, connectedCh, closedCh, 
+                            once, isConnected, registered, hasStores, live, 
+                            spawnPH, qlen, qclosed, plused, plexit, willT, 
+                            stack, c, rp, hp, hok, old, pk, snap, n >>
+
+wd2(self) == /\ pc[self] = "wd2"
+             /\ \/ /\ srvClosed[C(self)]
+                   /\ pc' = [pc EXCEPT ![self] = "w4"]
+                   /\ UNCHANGED <<owed, s2c>>
+                \/ /\ ~srvClosed[C(self)] /\ peerClosed[C(self)]
+                   /\ \/ /\ pc' = [pc EXCEPT ![self] = "w4"]
+                      \/ /\ pc' = [pc EXCEPT ![self] = "wd"]
+                   /\ UNCHANGED <<owed, s2c>>
+                \/ /\ ~srvClosed[C(self)] /\ ~peerClosed[C(self)] /\ (peerReading[C(self)] \/ s2c[C(self)] < CapSock)
+                   /\ IF ~peerReading[C(self)]
+                         THEN /\ s2c' = [s2c EXCEPT ![C(self)] = s2c[C(self)] + 1]
+                         ELSE /\ TRUE
+                              /\ s2c' = s2c
+                   /\ IF wp[self] = "connack" /\ owed[C(self)] > 0
+                         THEN /\ owed' = [owed EXCEPT ![C(self)] = owed[C(self)] - 1]
+                         ELSE /\ TRUE
+                              /\ owed' = owed
+                   /\ pc' = [pc EXCEPT ![self] = "wd"]
+             /\ UNCHANGED << listenerOpen, stopCalled, stopReturned, unloads, 
+                             onstops, mu, sess, accepted, c2s, sent, after, 
+                             peerReading, peerClosed, srvClosed, inq, inClosed, 
+                             outq, closeCh, connectedCh, closedCh, once, 
+                             isConnected, registered, hasStores, live, spawnPH, 
+                             qlen, qclosed, plused, plexit, willT, stack, c, 
+                             rp, wp, hp, hok, old, pk, snap, n >>
+
 w4(self) == /\ pc[self] = "w4"
             /\ once[(C(self))] # "running"
             /\ IF once[(C(self))] = "idle"
@@ -720,7 +791,8 @@ w4(self) == /\ pc[self] = "w4"
                             plused, plexit, willT, stack, c, rp, wp, hp, hok, 
                             old, pk, snap, n >>
 
-write(self) == w0(self) \/ w1(self) \/ w2(self) \/ w4(self)
+write(self) == w0(self) \/ w1(self) \/ w2(self) \/ wd(self) \/ wd2(self)
+                  \/ w4(self)
 
 s0(self) == /\ pc[self] = "s0"
             /\ accepted[C(self)] # "no"
